@@ -73,7 +73,11 @@ func H_C01_recv() {
 	}
 	if s.toOrbiter() {
 		verif.Cover("success-ack-to-orbiter")
-		verif.Assert(after[iOrb][0].IsZero(), "delivered-coin-has-left-the-orbiter-account")
+		delivered := 0 // index of the delivered denomination among the tracked ones
+		if s.denomKind == 4 {
+			delivered = 4
+		}
+		verif.Assert(after[iOrb][delivered].IsZero(), "delivered-coin-has-left-the-orbiter-account")
 		verif.Assert(len(w.CCTP.reqs)+len(w.Hyp.reqs)+len(w.Int.reqs) == 1, "success-ack-to-orbiter-means-forwarded")
 	} else {
 		verif.Cover("success-ack-to-someone-else")
